@@ -8,6 +8,8 @@ R14.2 [FIN]         the path-condition table of validate_model's raises covers t
 R14.4 [tables]      link-type alphabet / widths / dispatch tables agree; loader field
                     values equal the reference built from the mjModel layout
                     (load_model abstractly executed on mock models, braxlint/loader.py).
+R14.5 [abstract execution] mjcf._fuse_bodies leaves no jointless body behind (nested and sibling ones included) and keeps
+                    every geom / site / jointed body at its pose -- executed on mock documents (shared with C13 R13.4).
 """
 import ast
 import json
@@ -197,3 +199,7 @@ def run(U, rep, tier):
   r14_2(U, rep)
   r14_4_tables(U, rep)
   r14_4_fields(U, rep)
+  # R14.5: an accepted document reaches MuJoCo with every jointless body fused away (one joint type per remaining body:
+  # the loader's link tables assume it) and every geom / site / jointed body where the document put it (shared with C13)
+  from braxlint.props import c13
+  c13.geometry_preserved(U, rep, tier, rule='R14.5', nonunit=False)
